@@ -8,14 +8,15 @@ from harness import coqio, cparse, nets, compiled, asan, gennet
 from harness.common import Check
 from translate import gatecode as t_gc, wrapper as t_wr
 
-THEOREMS = ["C11_safe_dense", "C11_safe_net", "C11_safe_check_sound", "C11_deterministic", "C11_wrapper_safe", "C11_group_extent"]
+THEOREMS = ["C11_safe_dense", "C11_safe_net", "C11_safe_emitted", "C11_safe_check_sound", "C11_deterministic", "C11_wrapper_safe", "C11_group_extent"]
 TRUSTED = [
     "Coq 8.16.1 kernel/coqc; vm_compute evaluates the verified checker safe_check on each parsed program; theorems closed under the global context",
     "strict parser harness/cparse.py maps the emitted text to the modelled fragment (scalar const temporaries become cells of one pseudo-array)",
     "gcc/clang implement the fragment as modelled; stack exhaustion by large automatic arrays is a resource limit outside the property",
     "signed left shifts in the wrapper (1 << 31, shifting negative values) are defined by gcc/clang; the sanitizer run excludes the shift checks",
-    "for the library's large predefined architectures the bounds/initialisation analysis is run by the Python mirror of the "
-    "interpreter (harness/cparse.exec_prog), not inside Coq (quadratic cost of the functional memory); this part is a test, not a proof",
+    "the library's predefined architectures (k_num = 1; Mini in the quick tier, Mnist/Tiny/Cifar10 in the thorough tier): the parsed "
+    "text is compared with the proved generator model inside the kernel (streaming comparison gen_net_matchesN, proved sound: "
+    "C11_safe_emitted); the Python mirror of the interpreter is additionally run for diagnostics",
 ]
 
 
@@ -56,6 +57,7 @@ def run(ck: Check):
     ck.translate("WrapperParams", t_wr.gen_wrapper_params)
     ck.prove("Props/C11", THEOREMS)
     rng = ck.rng
+    pending = predefined_start(ck)
     items = []
     for idx, (kind, model) in enumerate(sample_models(ck)):
         W = [8, 16, 32, 64][idx % 4]
@@ -137,18 +139,23 @@ def run(ck: Check):
                             dict(case, compiler=cc, opt=opt), signature={"what": "opt-dependence", "kind": case["kind"]})
         if len({tuple(v) for v in outs.values()}) > 1:
             ck.disagree("result depends on compiler / optimisation level", case, signature={"what": "opt-dependence"})
-    predefined(ck)
+    predefined_finish(ck, pending)
     return ck.finish()
 
 
-def predefined(ck):
-    """The library's own architectures at k_num = 1: Python mirror of the interpreter on the parsed text."""
+def predefined_start(ck):
+    """The library's own architectures at k_num = 1.  The parsed text (13k..60k statements) is compared with the proved generator
+    model inside the kernel by the streaming comparison (C11_safe_emitted); the Python mirror of the interpreter is kept for
+    pinpointing an offending access.  Returns the pending kernel jobs (they run while the rest of the check proceeds)."""
+    from concurrent.futures import ThreadPoolExecutor
     from torchlogix import models as M
     todo = [("ClgnCifar10Mini", lambda: M.ClgnCifar10Mini(k_num=1, device="cpu"))]
     if ck.tier == "thorough":
         todo += [("ClgnMnist", lambda: M.ClgnMnist(k_num=1, device="cpu")),
                  ("ClgnCifar10Tiny", lambda: M.ClgnCifar10Tiny(k_num=1, device="cpu")),
                  ("ClgnCifar10", lambda: M.ClgnCifar10(n_bits=1, k_num=1, tau=1.0, device="cpu"))]
+    ex = ThreadPoolExecutor(max_workers=4)
+    jobs = []
     for name, mk in todo:
         try:
             torch.manual_seed(ck.seed)
@@ -160,12 +167,26 @@ def predefined(ck):
             n_out = net._get_output_size()
             p["sizes"][0], p["sizes"][1] = n_in, int(n_out)
             ck.case({"kind": "predefined", "name": name, "statements": len(p["body"])}, kind="predefined")
+            txt = gennet.large_text(nets.extract(model), p)
+            if txt is None:
+                ck.notes.append(f"{name}: outside the generator model's fragment (python mirror only)")
+            elif len(p["body"]) <= 30000 or ck.tier == "thorough":
+                jobs.append((name, p, ex.submit(ck.coq_eval, "c11large" + name, txt, 7200)))
             cparse.exec_prog(p, [0] * n_in, 64)
         except (IndexError, KeyError) as e:
             ck.disagree("predefined architecture compiles to an unsafe program", {"name": name}, observed=str(e),
                         signature={"what": "unsafe-access", "kind": "predefined", "name": name})
         except cparse.ParseError as e:
             ck.broke("correspondence", "parse emitted C", f"{name}: {e}")
+    return ex, jobs
+
+
+def predefined_finish(ck, pending):
+    ex, jobs = pending
+    for name, p, fut in jobs:
+        rc, out, err = fut.result()
+        gennet.judge_large(ck, name, p, rc, out, err)
+    ex.shutdown()
 
 
 def replay(ck, path):
